@@ -117,9 +117,14 @@ func checkMain(args []string) {
 			}
 			k := ks[rng.Intn(len(ks))]
 			r := ts[t].Rels[k]
-			switch rng.Intn(6) {
+			switch rng.Intn(7) {
+			case 6:
+				r.FT, r.TT = "zz", "zz" // the same, with its inverse name kept
 			case 5:
 				r.FT = "" // declared by hand without FromType
+				if rng.Intn(2) == 0 {
+					r.FT, r.TT, r.TN = "zz", "zz", "" // a type that was renamed: the relationship still says zz -> zz
+				}
 			case 0:
 				r.TT = "zz" // dangling
 			case 1:
